@@ -102,15 +102,22 @@ func (g *CommentGroup) Text() string {
 	for _, c := range comments {
 		// Remove comment markers.
 		// The parser has given us exactly the comment text.
-		switch c[1] {
-		case '/':
+		switch {
+		case c[0] == '#':
+			// #-style comment (no newline at the end); may be the '#' alone
+			c = c[1:]
+			// strip first space - required for Example tests
+			if len(c) > 0 && c[0] == ' ' {
+				c = c[1:]
+			}
+		case c[1] == '/':
 			//-style comment (no newline at the end)
 			c = c[2:]
 			// strip first space - required for Example tests
 			if len(c) > 0 && c[0] == ' ' {
 				c = c[1:]
 			}
-		case '*':
+		case c[1] == '*':
 			/*-style comment */
 			c = c[2 : len(c)-2]
 		}
